@@ -1165,7 +1165,12 @@ namespace fixedmath
   inline fixed_t sin_angle_aprox(int32_t angle) noexcept
     {
     if(fixed_unlikely(angle < 0 || angle > 360) )
+      {
       angle = angle % 360;
+      //remainder of negative angle is negative, table is indexed with 0 .. 360
+      if( angle < 0 )
+        angle += 360;
+      }
     return sin_angle_tab(angle);
     }
 
@@ -1177,7 +1182,12 @@ namespace fixedmath
   inline fixed_t cos_angle_aprox(int32_t angle) noexcept
     {
     if( fixed_unlikely( angle < 0 || angle > 360) )
+      {
       angle = angle % 360;
+      //remainder of negative angle is negative, table is indexed with 0 .. 360
+      if( angle < 0 )
+        angle += 360;
+      }
     return cos_angle_tab(angle);
     }
     
